@@ -91,22 +91,29 @@ def predicted_mixed_accept(a, b):
 
 
 # ------------------------------------------------------------------ static dump records
-def static_stmts(d):
+def static_stmts(d, part):
+    """part 'asq': what as_quantity(d) is; part 'acd': what as_chrono_duration(as_quantity(d)) is.
+    (Separate records, so that one of them failing to compile cannot hide the other's read-out.)"""
     D = d.cpp
     P = "std::ratio<%d, %d>" % (d.num, d.den)
-    out = ['vf_b("dur_rep_same", std::is_same<typename %s::rep, %s>::value);' % (D, d.rep),
-           'vf_b("dur_period_same", std::is_same<typename %s::period, typename %s::type>::value);' % (D, P)]
+    out = []
+    if part == "asq":
+        out = ['vf_b("dur_rep_same", std::is_same<typename %s::rep, %s>::value);' % (D, d.rep),
+               'vf_b("dur_period_same", std::is_same<typename %s::period, typename %s::type>::value);' % (D, P)]
     # the three value categories as_quantity can be called with (rvalue, lvalue, const lvalue)
     for tag, arg in (("rv", D), ("lv", D + " &"), ("cl", "const " + D + " &")):
         Q = "decltype(au::as_quantity(std::declval<%s>()))" % arg
         ACD = "decltype(au::as_chrono_duration(au::as_quantity(std::declval<%s>())))" % arg
-        out += [
-            'vf_b("q_rep_same_%s", std::is_same<typename %s::Rep, %s>::value);' % (tag, Q, d.rep),
-            'vf_kv("ratio_%s", vf::MagJson<decltype(au::unit_ratio(typename %s::Unit{}, au::seconds))>::get());' % (tag, Q),
-            'vf_kv("u_%s", "{" + vf::unit_json<typename %s::Unit>() + "}");' % (tag, Q),
-            'vf_b("acd_period_same_%s", std::is_same<typename %s::period, typename %s::type>::value);' % (tag, ACD, P),
-            'vf_b("acd_rep_same_%s", std::is_same<typename %s::rep, %s>::value);' % (tag, ACD, d.rep),
-            'vf_b("back_implicit_%s", std::is_convertible<%s, %s>::value);' % (tag, Q, D)]
+        if part == "asq":
+            out += [
+                'vf_b("q_rep_same_%s", std::is_same<typename %s::Rep, %s>::value);' % (tag, Q, d.rep),
+                'vf_kv("ratio_%s", vf::MagJson<decltype(au::unit_ratio(typename %s::Unit{}, au::seconds))>::get());' % (tag, Q),
+                'vf_kv("u_%s", "{" + vf::unit_json<typename %s::Unit>() + "}");' % (tag, Q),
+                'vf_b("back_implicit_%s", std::is_convertible<%s, %s>::value);' % (tag, Q, D)]
+        else:
+            out += [
+                'vf_b("acd_period_same_%s", std::is_same<typename %s::period, typename %s::type>::value);' % (tag, ACD, P),
+                'vf_b("acd_rep_same_%s", std::is_same<typename %s::rep, %s>::value);' % (tag, ACD, d.rep)]
     return out
 
 
@@ -228,7 +235,7 @@ template <> struct Bnd<double> { static const long long *v() { static const long
 
 struct MStats {
     unsigned long long evals = 0, ops = 0, skip_conv = 0, skip_arith = 0, band = 0, band_disagree = 0,
-                       oracle_disagree = 0, viol = 0;
+                       oracle_disagree = 0, viol = 0, qq_disagree = 0;
     unsigned seen_true = 0, seen_false = 0;
     int shown[16] = {0};
 };
@@ -279,10 +286,12 @@ struct Mixed {
         const bool x[6] = {d1 == d2, d1 != d2, d1 < d2, d1 <= d2, d1 > d2, d1 >= d2};
         const bool l[6] = {d1 == q2, d1 != q2, d1 < q2, d1 <= q2, d1 > q2, d1 >= q2};
         const bool r[6] = {q1 == d2, q1 != d2, q1 < d2, q1 <= d2, q1 > d2, q1 >= d2};
+        const bool m[6] = {q1 == q2, q1 != q2, q1 < q2, q1 <= q2, q1 > q2, q1 >= q2};   // info only (C08's business)
         for (int k = 0; k < 6; ++k) {
             st.ops += 2;
             if (band) { st.band_disagree += (l[k] != x[k]) + (r[k] != x[k]); continue; }
             if (x[k] != e[k]) ++st.oracle_disagree;
+            st.qq_disagree += (m[k] != x[k]);
             (x[k] ? st.seen_true : st.seen_false) |= 1u << k;
             if (l[k] != x[k]) emit(id, st, k, "dq", a, b, l[k] ? "true" : "false", x[k] ? "true" : "false", e[k] ? "true" : "false");
             if (r[k] != x[k]) emit(id, st, k, "qd", a, b, r[k] ? "true" : "false", x[k] ? "true" : "false", e[k] ? "true" : "false");
@@ -321,11 +330,13 @@ struct Mixed {
         }
         typedef decltype(std::declval<D1>() + std::declval<D2>()) XC;
         typedef decltype(au::as_chrono_duration(std::declval<D1>() + au::as_quantity(std::declval<D2>()))) AC;
+        (void)sizeof(au::as_quantity(std::declval<D1>()) + au::as_quantity(std::declval<D2>()));
+        (void)sizeof(au::as_quantity(std::declval<D1>()) - au::as_quantity(std::declval<D2>()));
         std::printf("S {\"inst\":%d,\"evals\":%llu,\"ops\":%llu,\"skip_conv\":%llu,\"skip_arith\":%llu,\"band\":%llu,"
                     "\"band_disagree\":%llu,\"oracle_disagree\":%llu,\"viol\":%llu,\"seen_true\":%u,\"seen_false\":%u,"
-                    "\"sum_type_same\":%d}\n", id, st.evals, st.ops, st.skip_conv, st.skip_arith, st.band,
+                    "\"sum_type_same\":%d,\"qq_disagree\":%llu}\n", id, st.evals, st.ops, st.skip_conv, st.skip_arith, st.band,
                     st.band_disagree, st.oracle_disagree, st.viol, st.seen_true, st.seen_false,
-                    (int)std::is_same<XC, AC>::value);
+                    (int)std::is_same<XC, AC>::value, st.qq_disagree);
         std::fflush(stdout);
     }
 };
